@@ -7,7 +7,8 @@ package main
 // working (a lower-layer call is open, or one of its goroutines is runnable,
 // sleeping on a timer, or inside a harness wrapper) or idle in its timed select.
 // The one state that can never make progress again is a CLOSED WAIT CYCLE: the
-// loop goroutine parked in a plain channel operation inside runSync, and every
+// loop goroutine parked in a plain channel operation (or the Wait of its local
+// WaitGroup) inside runSync, and every
 // goroutine it ever spawned that is still alive (enumerator, copy workers, their
 // helpers) parked in a plain channel operation with a frame of the sync machinery
 // (packages server / blobserver) on top.  The
@@ -168,8 +169,21 @@ func copyLoopWaitCycle(gs []gor, starter int) (wc *waitCycle, why string) {
 	if loop == nil {
 		return nil, "copy loop goroutine not found"
 	}
-	if !plainChanOp(loop.State) || !strings.HasSuffix(loop.top(), "(*SyncHandler).runSync") {
+	// parked in a channel operation of runSync, or in the Wait of runSync's own WaitGroup (local
+	// to the call: only the copy workers it started can release it)
+	loopTop := loop.top()
+	if loop.State == "sync.WaitGroup.Wait" {
+		for _, f := range loop.Funcs {
+			if !strings.HasPrefix(f, "sync.") && !strings.HasPrefix(f, "runtime.") {
+				loopTop = f
+				break
+			}
+		}
+	} else if !plainChanOp(loop.State) {
 		return nil, fmt.Sprintf("copy loop goroutine is [%s] in %s", loop.State, loop.top())
+	}
+	if !strings.HasSuffix(loopTop, "(*SyncHandler).runSync") {
+		return nil, fmt.Sprintf("copy loop goroutine is [%s] in %s", loop.State, loopTop)
 	}
 	// everything the loop goroutine ever spawned and that is still alive
 	set := map[int]bool{loop.ID: true}
@@ -189,9 +203,14 @@ func copyLoopWaitCycle(gs []gor, starter int) (wc *waitCycle, why string) {
 		}
 	}
 	sort.Slice(members, func(i, j int) bool { return members[i].ID < members[j].ID })
-	wc = &waitCycle{Where: strings.TrimPrefix(loop.top(), "perkeep.org/pkg/server.")}
+	wc = &waitCycle{Where: strings.TrimPrefix(loopTop, "perkeep.org/pkg/server.")}
 	var key strings.Builder
 	for _, g := range members {
+		if g.ID == loop.ID {
+			wc.Parked = append(wc.Parked, fmt.Sprintf("goroutine %d [%s] %s", g.ID, g.State, loopTop))
+			fmt.Fprintf(&key, "%d|%s|%s;", g.ID, g.State, loopTop)
+			continue
+		}
 		if !parkedOnLoop(g) {
 			return nil, fmt.Sprintf("goroutine %d of the copy loop is [%s] in %s", g.ID, g.State, g.top())
 		}
